@@ -23,13 +23,19 @@ RULE = ("cases = one call of the real RegionGeom.mcintegral (object built by the
         "arrays, or one header value / column of a real compute(config) run recomputed from the result table; streams: "
         "structured, boundary (exact ties trigger == threshold, cos(sep) == cos(theta_eff), L == l_dec; N in {1,2}; scalar "
         "cosine), malformed (wrong array length, unknown method, NaN trigger: error kind / model agreement only); a case is "
-        "non-trivial when at least one event passes and at least one fails a cut; key = (site, config id, stream, size, #pass)")
+        "non-trivial when at least one event passes and at least one fails a cut; key = (site, config id, stream, size, #pass); "
+        "configured-limits stream: RegionGeomToO.mcintegral with the real dark-sky cut of an object built from a configuration whose "
+        "sun / moon limits, switch and threshold sit at 0, -0.0, False, +-5e-324 or a spelling of them (and at generic values), and "
+        "compute() on such configurations with the source placed so that events happen while the value of the limit decides; "
+        "non-trivial when dark and bright instants both occur and the focused limit decides at least one instant")
 ASSUMPTIONS = [
     "sums are compared to 1e-10 relative (numpy sums pairwise, the model left to right); counts and the target-mode "
     "per-event columns are compared exactly / to 1e-12",
     "in the end-to-end recomputation the radio trigger is the real calculate_snr applied to the table's EFields column, "
     "spec_norm and spec_weights_sum are the real spectra helpers applied to the configuration (both are functions of the "
-    "configuration only), and the target-mode dark flags are the real ToOEvent.sun_moon_cut applied to the table's `times` column",
+    "configuration only), and the target-mode dark flags are the real ToOEvent.sun_moon_cut applied to the table's `times` column, "
+    "checked against (and, where they differ away from exact ties, replaced by) the dark-sky rule evaluated from the configured "
+    "limits detector.sun_moon.* with Sun / Moon positions taken from astropy directly",
     "property quantifier: finite triggers, cosines in [-1,1], p_exit in (0,1], decay lengths >= 0; NaN triggers are only "
     "compared model-vs-code (a NaN trigger passes `triggers < threshold` in both)",
 ]
@@ -592,7 +598,7 @@ def e2e_configs(nss, rng, thorough):
     return out
 
 
-def part_e2e(ctx, nss):
+def part_e2e(ctx, nss, configs=None):
     import dask
     from astropy.time import Time
     from nuspacesim.compute import compute
@@ -601,7 +607,7 @@ def part_e2e(ctx, nss):
     from nuspacesim.simulation.spectra.spectra import spec_norm, sum_spec_weights
     rng = ctx.rng
     dask.config.set(scheduler="synchronous")
-    for cid, cfg in e2e_configs(nss, rng, ctx.thorough):
+    for cid, cfg, *given in (configs if configs is not None else e2e_configs(nss, rng, ctx.thorough)):
         np.random.seed(int(rng.integers(0, 2**31 - 1)))
         with quiet(), np.errstate(all="ignore"):
             sim = compute(cfg)
@@ -633,6 +639,8 @@ def part_e2e(ctx, nss):
             site = f"compute[{cfg.simulation.mode},{method}]"
             case = {"cfg": cid, "thrown": int(N), "rows": nrow, "header": {k_: float(v) for k_, v in hdr.items()},
                     "np_random_seed": "drawn from VERIF_SEED stream"}
+            if given:
+                case["configuration"] = limits_summary(cfg, given[0])
             if cfg.simulation.mode == "Diffuse":
                 mcn = h2f(run_driver([f"c03norm {f2h(alt)} {f2h(cfg.simulation.angle_from_limb)} "
                                       f"{f2h(cfg.simulation.max_cherenkov_angle)} {f2h(cfg.simulation.max_azimuth_angle)}"])[0][0])
@@ -648,6 +656,15 @@ def part_e2e(ctx, nss):
                 cut_on = bool(cfg.detector.sun_moon.sun_moon_cuts)
                 if cut_on and method == "Optical":
                     dark = np.asarray(ToOEvent(cfg).sun_moon_cut(Time(sim["times"])), dtype=bool)
+                    # ... and the rule evaluated from the CONFIGURED limits with the ephemerides from astropy directly: where the two differ
+                    # (away from exact ties) the configured numbers decide, so that the header / column oracles below go by them
+                    cdark, decided, matters = configured_dark(cfg, Time(sim["times"]))
+                    ctx.count("e2e_Target_rows_where_a_limit_value_decides", int(np.any(list(matters.values()), axis=0).sum()))
+                    if np.any((cdark != dark) & decided):
+                        ctx.count("e2e_Target_dark_flags_not_those_of_the_configured_limits", int(((cdark != dark) & decided).sum()))
+                        dark = np.where(decided, cdark, dark)
+                        case["dark_sky"] = "rule evaluated from the configured limits (differs from ToOEvent(cfg).sun_moon_cut at the table's times)"
+                    case.setdefault("configuration", limits_summary(cfg))
                 else:
                     dark = np.ones(nrow, dtype=bool)
                 ldec = col("lenDec")
@@ -685,6 +702,257 @@ def part_e2e(ctx, nss):
                 ctx.count("e2e_Target_bright_rows", int((~dark).sum()))
 
 
+# --------------------------------------------------------------------------- part 3: configured limits / thresholds / switches
+# Property text: "in target mode ... optical events additionally need a dark sky", "an event contributes only if its signal reaches
+# the threshold", quantified over ALL configurations and ALL thresholds. The dark sky is the one the CONFIGURED limits define
+# (detector.sun_moon.sun_alt_cut / moon_alt_cut / moon_min_phase_angle_cut — the numbers the results header records), the threshold
+# is the configured one, the switch is the configured one. A limit, threshold or switch is a NUMBER (or a Boolean): 0, 0.0, -0.0,
+# False, the smallest numbers either side of 0 and every spelling that the configuration turns into one of them are values like any
+# other, not "nothing given". The streams below put every one of these settings at such values (and at generic ones) and evaluate the
+# dark-sky rule from the configured numbers and the ephemerides taken from astropy directly (not through ToOEvent), on runs chosen so
+# that the value of the limit decides events: instants while the Sun / Moon / phase angle lies between the configured limit and other
+# values of it (twilight for a Sun limit of 0, a bright Moon above the horizon for a phase limit of 0, ...).
+
+ALT_LIMITS = {"sun_alt_cut": [-18.0, -6.0, 6.0, -30.0], "moon_alt_cut": [-10.0, 10.0, 0.0, 30.0],
+              "moon_min_phase_angle_cut": [150.0, 90.0, 179.0, 30.0]}
+
+
+def ephemeris(cfg, times):
+    """Sun altitude, Moon altitude (as seen from the configured detector) and the Moon's phase angle [rad], from astropy directly."""
+    import astropy.coordinates as ac
+    from astropy import units as au
+    ip = cfg.detector.initial_position
+    loc = ac.EarthLocation(lat=float(ip.latitude) * au.rad, lon=float(ip.longitude) * au.rad, height=float(ip.altitude) * 1000 * au.m)
+    fr = ac.AltAz(obstime=times, location=loc)
+    with np.errstate(all="ignore"):
+        sun = ac.get_body("sun", times)
+        moon = ac.get_body("moon", times)
+        el = sun.separation(moon)
+        phase = np.arctan2(sun.distance * np.sin(el), moon.distance - sun.distance * np.cos(el)).to_value(au.rad)
+        return (np.atleast_1d(np.asarray(sun.transform_to(fr).alt.rad, dtype=np.float64)),
+                np.atleast_1d(np.asarray(moon.transform_to(fr).alt.rad, dtype=np.float64)), np.atleast_1d(np.asarray(phase, dtype=np.float64)))
+
+
+def dark_rule(eph, sc, mc, pc):
+    sun, moon, phase = eph
+    return (sun < sc) & ((phase > pc) | (moon < mc))
+
+
+def configured_dark(cfg, times, eph=None):
+    """(dark, decided, matters): the dark-sky rule from the CONFIGURED limits; `decided` is False where an angle is within 1e-9 rad of
+    its limit (there the last bits of the ephemeris decide: not compared); matters[name] = instants at which the VALUE of that limit
+    decides (the flag changes when the limit takes another value)."""
+    sm = cfg.detector.sun_moon
+    lim = {k_: float(getattr(sm, k_)) for k_ in ALT_LIMITS}
+    eph = ephemeris(cfg, times) if eph is None else eph
+    dark = dark_rule(eph, lim["sun_alt_cut"], lim["moon_alt_cut"], lim["moon_min_phase_angle_cut"])
+    decided = ((np.abs(eph[0] - lim["sun_alt_cut"]) > 1e-9) & (np.abs(eph[1] - lim["moon_alt_cut"]) > 1e-9)
+               & (np.abs(eph[2] - lim["moon_min_phase_angle_cut"]) > 1e-9))
+    matters = {}
+    for name, alts in ALT_LIMITS.items():
+        m = np.zeros(len(dark), dtype=bool)
+        for a in alts:
+            l2 = dict(lim, **{name: float(np.radians(a))})
+            m |= dark_rule(eph, l2["sun_alt_cut"], l2["moon_alt_cut"], l2["moon_min_phase_angle_cut"]) != dark
+        matters[name] = m
+    return dark, decided, matters
+
+
+def zero_like(rng, exact=False):
+    """One value a truthiness test drops (exact: only those), or one of its neighbours either side of 0, in one of the forms a
+    configuration accepts -> (label, value)."""
+    from astropy.units import Quantity
+    from astropy import units as au
+    tiny = float(np.nextafter(0.0, 1.0))
+    forms = [("0.0", 0.0), ("-0.0", -0.0), ("int 0", 0), ("False", False), ("'0 deg'", "0 deg"), ("'0.0 rad'", "0.0 rad"),
+             ("'-0.0 deg'", "-0.0 deg"), ("Quantity(0 deg)", Quantity(0.0, au.deg)), ("np.float64(0)", np.float64(0.0)),
+             ("+5e-324", tiny), ("-5e-324", -tiny), ("+1e-12", 1e-12), ("-1e-12", -1e-12)]
+    return forms[int(rng.integers(0, 9 if exact else len(forms)))]
+
+
+def limits_section(nss, rng, focus, cuts=True, exact=False):
+    """detector.sun_moon with the limit `focus` at a zero-like value, the others generic (or, one time in three, zero-like too);
+    built through the section's constructor, i.e. by the route on which a configuration file's values arrive."""
+    generic = {"sun_alt_cut": [-18.0, -12.0, -6.0, -0.5, 1.0], "moon_alt_cut": [0.0, -5.0, 10.0], "moon_min_phase_angle_cut": [150.0, 90.0, 120.0, 180.0]}
+    kw, labels = {}, {}
+    for name in ALT_LIMITS:
+        if name == focus or rng.random() < 1 / 3:
+            labels[name], kw[name] = zero_like(rng, exact and name == focus)
+        else:
+            d = float(rng.choice(generic[name]))
+            labels[name], kw[name] = f"{d} deg", float(np.radians(d))
+    return nss.config.Detector.SunMoon(sun_moon_cuts=cuts, **kw), labels
+
+
+def limits_summary(cfg, labels=None):
+    sm, ip, tg = cfg.detector.sun_moon, cfg.detector.initial_position, cfg.simulation.target
+    return {"sun_moon_cuts": sm.sun_moon_cuts, "sun_alt_cut": sm.sun_alt_cut, "moon_alt_cut": sm.moon_alt_cut,
+            "moon_min_phase_angle_cut": sm.moon_min_phase_angle_cut, "given_as": labels,
+            "detector_lat_lon_alt": [float(ip.latitude), float(ip.longitude), float(ip.altitude)],
+            "source_RA_DEC": [float(tg.source_RA), float(tg.source_DEC)], "source_date": tg.source_date, "source_obst": float(tg.source_obst),
+            "photo_electron_threshold": cfg.detector.optical.photo_electron_threshold, "snr_threshold": cfg.detector.radio.snr_threshold}
+
+
+def part_limits(ctx, nss, RegionGeomToO):
+    """The real RegionGeomToO.mcintegral with the REAL dark-sky cut of an object built from the configuration (nothing stubbed, nothing
+    set on the object afterwards): integral, passing count and stored column against the estimator with the dark-sky rule evaluated
+    from the configured limits."""
+    rng = ctx.rng
+    site = "RegionGeomToO.mcintegral"
+    reps = 36 if ctx.thorough else 12
+    for rep in range(reps):
+        focus = list(ALT_LIMITS)[rep % 3]
+        cfg = nss.NssConfig()
+        cfg.simulation.mode = "Target"
+        ip = cfg.detector.initial_position
+        ip.altitude = float(rng.choice([525.0, 33.0, 1000.0]))
+        ip.latitude, ip.longitude = float(rng.uniform(-0.9, 0.9)), float(rng.uniform(-np.pi, np.pi))
+        tg = cfg.simulation.target
+        tg.source_RA, tg.source_DEC = float(rng.uniform(0, 2 * np.pi)), float(rng.uniform(-0.5, 0.5))
+        tg.source_date = f"2022-{int(rng.integers(1, 13)):02d}-{int(rng.integers(1, 28)):02d}T{int(rng.integers(0, 24)):02d}:00:00"
+        # a day for the Sun's limit (two twilights), a lunation for the Moon's limits (every phase, Moon up and down at night)
+        tg.source_obst = 86400.0 if focus == "sun_alt_cut" else 30 * 86400.0
+        # the switch itself in the forms a configuration accepts; one run in six with the cut switched off by a falsy spelling
+        cuts_given = (True, 1, "true", True, 1.0, (False, 0, "false")[rep % 3])[rep % 6]
+        cfg.detector.sun_moon, labels = limits_section(nss, rng, focus, cuts_given, exact=(rep // 3) % 2 == 0)
+        cut_on = bool(cfg.detector.sun_moon.sun_moon_cuts)
+        geom = RegionGeomToO(cfg)
+        n = 160
+        with np.errstate(all="ignore"):
+            geom.throw(n)
+        hm = rng.random(n) < 0.85
+        vm = rng.random(int(hm.sum())) < 0.85
+        k = int(vm.sum())
+        geom.horizon_mask, geom.volume_mask = hm, vm
+        L = rng.uniform(10.0, 3000.0, k)
+        geom.losPathLen = L.copy()
+        ldec = rng.exponential(50.0, k) * np.exp(rng.normal(0, 2, k))
+        coseff = np.cos(np.radians(rng.uniform(0.2, 5.0, k)))
+        p = rng.uniform(1e-6, 1.0, k)
+        # thresholds are numbers too: 0, -0.0 and signed signals next to generic ones (photo-electron counts are >= 0, SNRs signed)
+        tk = rep % 4
+        if tk == 0:
+            trig, thr = np.floor(np.exp(rng.normal(0.5, 1.5, k))), (0.0, -0.0, 0)[rep % 3]
+        elif tk == 1:
+            trig, thr = rng.normal(0.0, 2.0, k), (0.0, -0.0, -1.0)[(rep // 4) % 3]
+            trig[:: 7] = 0.0
+        else:
+            trig, thr = np.exp(rng.normal(2.0, 1.5, k)), float(np.exp(rng.normal(2.0, 0.7)))
+        times = geom.times[hm][vm]
+        dark, decided, matters = configured_dark(cfg, times)
+        ctx.count("limits_direct_calls")
+        if not decided.all():
+            ctx.count("limits_direct_near_tie_skipped")
+            continue
+        stored = {}
+
+        def store(names, cols, stored=stored):
+            stored[names[0]] = np.array(cols[0], copy=True)
+
+        with np.errstate(all="ignore"):
+            got = geom.mcintegral(trig, coseff, p, thr, 1.0, 1.0, lenDec=ldec, method="Optical", store=store)
+            g_rad = geom.mcintegral(trig, coseff, p, thr, 1.0, 1.0, lenDec=ldec, method="Radio")
+        o_int, o_geo, o_n, contrib = oracle_target(L, ldec, coseff, trig, float(thr), p, 1.0, 1.0, n, dark, cut_on, "Optical")
+        r_int, _, r_n, _ = oracle_target(L, ldec, coseff, trig, float(thr), p, 1.0, 1.0, n, dark, cut_on, "Radio")
+        case = dict(limits_summary(cfg, labels), focus=focus, sun_moon_cuts_given_as=repr(cuts_given), n_times=n, n_kept=k,
+                    threshold=thr, integral=float(got[0]), npass=int(got[2]), expected_integral=o_int, expected_npass=o_n,
+                    dark_instants=int(dark.sum()), instants_where_the_limit_decides={k_: int(v.sum()) for k_, v in matters.items()},
+                    seed=ctx.seed, rep=rep)
+        col = stored.get("tmcintopt")
+        bad_col = col is None or len(col) != k or not np.allclose(col, contrib, rtol=1e-9, atol=0.0) or not np.array_equal(col == 0, contrib == 0)
+        if not relclose(got[0], o_int, 1e-9, 1e-300) or int(got[2]) != o_n or bad_col:
+            # an event that contributes although its signal is below the configured threshold cannot be the dark-sky rule's doing
+            cls = "dark-sky-mask-differs-from-the-configured-limits" if cut_on else "dark-sky-cut-applied-although-switched-off"
+            passes_thr = oracle_target(L, ldec, coseff, trig, float(thr), p, 1.0, 1.0, n, np.ones(k, dtype=bool), False, "Optical")[3]
+            if col is not None and len(col) == k and np.any((col != 0) & (passes_thr == 0)):
+                cls = "threshold-differs-from-the-configured-value"
+            ctx.violation(site, cls,
+                          f"optical integral {float(got[0])!r} / passing {int(got[2])} / stored column differ from the estimator with the dark-sky rule "
+                          f"of the configured limits (sun_alt_cut given as {labels['sun_alt_cut']}, moon_alt_cut as {labels['moon_alt_cut']}, "
+                          f"moon_min_phase_angle_cut as {labels['moon_min_phase_angle_cut']}, sun_moon_cuts as {cuts_given!r}, threshold {thr!r}): "
+                          f"expected {o_int!r} / {o_n}", case)
+        if not relclose(g_rad[0], r_int, 1e-9, 1e-300) or int(g_rad[2]) != r_n:
+            ctx.violation(site, "radio-differs-from-the-estimator-at-the-configured-values", f"radio integral {float(g_rad[0])!r} / {int(g_rad[2])} != {r_int!r} / {r_n}", case)
+        decides = int(matters[focus].sum())
+        ctx.case((site, "configured-limits", focus, labels[focus], k, o_n) if (cut_on and decides and 0 < dark.sum() < k) else None, n=2)
+        ctx.count(f"limits_direct_{focus}_given_as_{labels[focus]}")
+        ctx.count("limits_direct_instants_where_the_focus_limit_decides", decides)
+        ctx.count("limits_direct_threshold_" + ("zero" if float(thr) == 0 else "generic"))
+        if not cut_on:
+            ctx.count("limits_direct_switch_off_" + repr(cuts_given))
+
+
+def twilight_source(cfg, rng, focus):
+    """Choose date and source position of a Target run so that events happen while the VALUE of the limit `focus` decides the dark-sky
+    flag: the source stands in the band below the limb from which trajectories are accepted at instants at which the flag under the
+    configured limits differs from the flag under other values of that limit. Ephemerides from astropy, source altitude from the
+    sidereal time (a degree is accurate enough for choosing a run). Returns the number of such instants out of 240."""
+    from astropy import units as au
+    from astropy.time import Time, TimeDelta
+    ip, tg = cfg.detector.initial_position, cfg.simulation.target
+    R = 6378.1
+    dep = float(np.arccos(R / (R + ip.altitude)))
+    lo, hi = -dep - min(float(cfg.simulation.angle_from_limb), np.radians(30.0)), -dep
+    best = (-1, None)
+    for _ in range(6):
+        date = f"2022-{int(rng.integers(1, 13)):02d}-{int(rng.integers(1, 28)):02d}T{int(rng.integers(0, 24)):02d}:00:00"
+        times = Time(date, format="isot", scale="utc") + TimeDelta(np.arange(240) / 240 * tg.source_obst, format="sec")
+        tg.source_date = date
+        _, _, matters = configured_dark(cfg, times)
+        m = matters[focus]
+        if not m.any():
+            continue
+        with np.errstate(all="ignore"):
+            lst = np.asarray(times.sidereal_time("mean", longitude=float(ip.longitude) * au.rad).rad)
+        ras = np.radians(np.arange(0.0, 360.0, 4.0))[:, None, None]
+        decs = np.radians(np.array([-25.0, -12.0, 0.0, 12.0, 25.0]))[None, :, None]
+        sinalt = np.sin(ip.latitude) * np.sin(decs) + np.cos(ip.latitude) * np.cos(decs) * np.cos(lst[None, None, :] - ras)
+        alt = np.arcsin(np.clip(sinalt, -1, 1))
+        score = ((alt > lo) & (alt < hi) & m[None, None, :]).sum(axis=2)
+        i, j = np.unravel_index(int(np.argmax(score)), score.shape)
+        if score[i, j] > best[0]:
+            best = (int(score[i, j]), (date, float(ras[i, 0, 0]), float(decs[0, j, 0])))
+        if best[0] >= 12:
+            break
+    if best[1] is not None:
+        tg.source_date, tg.source_RA, tg.source_DEC = best[1]
+    return max(best[0], 0)
+
+
+def limit_e2e_configs(nss, rng, thorough):
+    """(id, config, labels) for compute(): Target mode, optical channel, one of the three limits at a zero-like value, and the two
+    radio threshold at 0.0 / -0.0; Diffuse mode with the radio threshold at zero."""
+    out = []
+    foci = list(ALT_LIMITS)
+    order = [foci[i] for i in rng.permutation(3)]
+    plan = (order + order) if thorough else [order[0], ("sun_alt_cut" if order[0] != "sun_alt_cut" else order[1])]
+    for i, focus in enumerate(plan):
+        cfg = nss.NssConfig()
+        cfg.simulation.mode = "Target"
+        cfg.detector.radio.enable = bool(i % 2)
+        cfg.simulation.thrown_events = int(rng.integers(1800, 2400))
+        cfg.simulation.spectrum = nss.config.Simulation.MonoSpectrum(log_nu_energy=float(rng.choice([10.0, 10.5])))
+        ip = cfg.detector.initial_position
+        ip.altitude = 33.0
+        ip.latitude, ip.longitude = float(rng.uniform(-0.5, 0.5)), float(rng.uniform(-np.pi, np.pi))
+        # the photo-electron threshold stays positive in compute(): the optical module divides by it (enhancement factor numPEs / threshold),
+        # so that at 0 the stored costhetaChEff is NaN — outside this property's quantifier (cosines in [-1,1]); the threshold 0 is
+        # exercised on the estimator itself in part_limits / the `signed` stream, and the radio threshold at 0.0 / -0.0 here
+        cfg.detector.optical.photo_electron_threshold = (0.5, 10.0, 1.0)[int(rng.integers(0, 3))]
+        cfg.detector.radio.snr_threshold = (0.0, -0.0)[i % 2]
+        cfg.simulation.target.source_obst = 86400.0
+        cfg.detector.sun_moon, labels = limits_section(nss, rng, focus, True, exact=True)
+        score = twilight_source(cfg, rng, focus)
+        out.append((f"L{i}:Target:O{'R' if i % 2 else ''}:{focus} given as {labels[focus]}:{score}/240 instants decided by it", cfg, labels))
+    cfg = nss.NssConfig()
+    cfg.simulation.thrown_events = int(rng.integers(100, 300))
+    cfg.simulation.spectrum = nss.config.Simulation.MonoSpectrum(log_nu_energy=float(rng.choice([9.5, 10.5])))
+    cfg.detector.optical.photo_electron_threshold = (0.5, 1.0)[int(rng.integers(0, 2))]
+    cfg.detector.radio.snr_threshold = (0.0, -0.0)[int(rng.integers(0, 2))]
+    out.append(("L:Diffuse:OR:snr threshold 0", cfg, None))
+    return out
+
+
 def run(ctx: Ctx):
     import nuspacesim as nss
     from astropy import units
@@ -704,6 +972,8 @@ def run(ctx: Ctx):
     part_diffuse(ctx, nss, RegionGeom)
     part_target(ctx, nss, RegionGeomToO)
     part_e2e(ctx, nss)
+    part_limits(ctx, nss, RegionGeomToO)
+    part_e2e(ctx, nss, limit_e2e_configs(nss, ctx.rng, ctx.thorough))
 
 
 def search(ctx: Ctx):
